@@ -584,9 +584,9 @@ theorem contains_eq_any (l : List String) (u : String) : l.any (fun x => u == x)
   | nil => rfl
   | cons a l ih => rw [List.any_cons, List.contains_cons, ih]
 
-theorem maps_userLimits (c : Cfg) (p : Path) (u : String) (h1 : u ≠ "") (h2 : u ≠ "*") :
-    aget2 (processConfig {} c).2.userLimits p u = (lastUserEntry c p u).map lcOf := by
-  have := proj_config (proj_userLimits p u h1 h2) c (({} : Mgr), ({} : NewCfg))
+theorem maps_userLimits_any (m : Mgr) (c : Cfg) (p : Path) (u : String) (h1 : u ≠ "") (h2 : u ≠ "*") :
+    aget2 (processConfig m c).2.userLimits p u = (lastUserEntry c p u).map lcOf := by
+  have := proj_config (proj_userLimits p u h1 h2) c (m, ({} : NewCfg))
   unfold processConfig
   rw [this]
   have hh : (fun (q : Path × List LimitEntry) => q.2.filter (hits (fun p' x => decide (p' = p) && (u == x)) (fun _ _ => false) q.1))
@@ -597,9 +597,12 @@ theorem maps_userLimits (c : Cfg) (p : Path) (u : String) (h1 : u ≠ "") (h2 : 
   unfold lastOr lastUserEntry
   cases (List.filter (fun l => l.users.contains u) (List.flatMap (fun x => x.2) (List.filter (fun q => q.1 == p) c))).getLast? <;> rfl
 
-theorem maps_userWild (c : Cfg) (p : Path) :
-    aget (processConfig {} c).2.userWild p = (lastUserEntry c p "*").map lcOf := by
-  have := proj_config (proj_userWild p) c (({} : Mgr), ({} : NewCfg))
+theorem maps_userLimits (c : Cfg) (p : Path) (u : String) (h1 : u ≠ "") (h2 : u ≠ "*") :
+    aget2 (processConfig {} c).2.userLimits p u = (lastUserEntry c p u).map lcOf := maps_userLimits_any {} c p u h1 h2
+
+theorem maps_userWild_any (m : Mgr) (c : Cfg) (p : Path) :
+    aget (processConfig m c).2.userWild p = (lastUserEntry c p "*").map lcOf := by
+  have := proj_config (proj_userWild p) c (m, ({} : NewCfg))
   unfold processConfig
   rw [this]
   have hh : (fun (q : Path × List LimitEntry) => q.2.filter (hits (fun p' x => decide (p' = p) && ("*" == x)) (fun _ _ => false) q.1))
@@ -610,9 +613,12 @@ theorem maps_userWild (c : Cfg) (p : Path) :
   unfold lastOr lastUserEntry
   cases (List.filter (fun l => l.users.contains "*") (List.flatMap (fun x => x.2) (List.filter (fun q => q.1 == p) c))).getLast? <;> rfl
 
-theorem maps_groupLimits (c : Cfg) (p : Path) (g : String) (h1 : g ≠ "") :
-    aget2 (processConfig {} c).2.groupLimits p g = (lastGroupEntry c p g).map lcOf := by
-  have := proj_config (proj_groupLimits p g h1) c (({} : Mgr), ({} : NewCfg))
+theorem maps_userWild (c : Cfg) (p : Path) :
+    aget (processConfig {} c).2.userWild p = (lastUserEntry c p "*").map lcOf := maps_userWild_any {} c p
+
+theorem maps_groupLimits_any (m : Mgr) (c : Cfg) (p : Path) (g : String) (h1 : g ≠ "") :
+    aget2 (processConfig m c).2.groupLimits p g = (lastGroupEntry c p g).map lcOf := by
+  have := proj_config (proj_groupLimits p g h1) c (m, ({} : NewCfg))
   unfold processConfig
   rw [this]
   have hh : (fun (q : Path × List LimitEntry) => q.2.filter (hits (fun _ _ => false) (fun p' x => decide (p' = p) && (g == x)) q.1))
@@ -622,6 +628,9 @@ theorem maps_groupLimits (c : Cfg) (p : Path) (g : String) (h1 : g ≠ "") :
   rw [hh, flatMap_filter_path]
   unfold lastOr lastGroupEntry
   cases (List.filter (fun l => l.groups.contains g) (List.flatMap (fun x => x.2) (List.filter (fun q => q.1 == p) c))).getLast? <;> rfl
+
+theorem maps_groupLimits (c : Cfg) (p : Path) (g : String) (h1 : g ≠ "") :
+    aget2 (processConfig {} c).2.groupLimits p g = (lastGroupEntry c p g).map lcOf := maps_groupLimits_any {} c p g h1
 
 /-! ### the wildcard map has unique, non-empty queue paths -/
 
@@ -682,15 +691,17 @@ theorem W_procGroup {s : Mgr × NewCfg} (h : W s) (p : Path) (lc : Limit) (g : S
   · exact h
   · simp only; split <;> exact h
 
-theorem W_processConfig (c : Cfg) (hc : ∀ q ∈ c, q.1 ≠ []) : W (processConfig {} c) := by
+theorem W_processConfig_any (m : Mgr) (c : Cfg) (hc : ∀ q ∈ c, q.1 ≠ []) : W (processConfig m c) := by
   unfold processConfig
-  apply foldl_preserves _ W c _ _ (show W (({} : Mgr), ({} : NewCfg)) from ⟨List.nodup_nil, fun e he => by cases he⟩)
+  apply foldl_preserves _ W c _ _ (show W (m, ({} : NewCfg)) from ⟨List.nodup_nil, fun e he => by cases he⟩)
   intro s q hq hs
   apply foldl_preserves _ W _ _ _ hs
   intro s l _ hs
   unfold procEntry
   apply foldl_preserves _ W _ (fun s g _ hs => W_procGroup hs _ _ g)
   exact foldl_preserves _ W _ (fun s u _ hs => W_procUser hs (hc q hq) _ u) _ hs
+
+theorem W_processConfig (c : Cfg) (hc : ∀ q ∈ c, q.1 ≠ []) : W (processConfig {} c) := W_processConfig_any {} c hc
 
 /-! ### applyWildCardUserLimits -/
 
